@@ -765,7 +765,7 @@ pub fn run(property: &'static str, tier: Tier, started: Instant) -> Vec<Part> {
             // "removed" root runs with a finite dead-node grace period (3 x bound)
             let d = if root.is_empty() { depth } else { depth - 2 };
             let cfg = &if *name == "removed-after-grace" { FdCfg { grace_ms: 3 * cfg.bound_ms(), ..*cfg } } else { *cfg };
-            let (t, v, capped) = exhaustive(cfg, root, d, property, secs(tier.pick(50, 3000) * (i as u64 + 1) / ncfg));
+            let (t, v, capped) = exhaustive(cfg, root, d, property, secs(tier.pick(150, 3000) * (i as u64 + 1) / ncfg));
             e.tally.merge(&t);
             viols.extend(v);
             if capped {
@@ -825,7 +825,7 @@ pub fn run(property: &'static str, tier: Tier, started: Instant) -> Vec<Part> {
     p.bounds = json!({"configs": pcfgs.len()});
     let mut viols = vec![];
     for cfg in &pcfgs {
-        let (t, v, capped) = periodic(cfg, period, arrivals, secs(tier.pick(58, 3400)));
+        let (t, v, capped) = periodic(cfg, period, arrivals, if tier == Tier::Quick { Instant::now() + Duration::from_secs(60) } else { secs(3400) });
         p.tally.merge(&t);
         viols.extend(v);
         if capped {
